@@ -586,6 +586,18 @@ func OpenWith(path string, vLogs []appendable.Appendable, txLog, cLog appendable
 			break
 		}
 
+		// the tx log may have been written ahead of the value logs (their write buffers are flushed independently):
+		// a transaction whose values did not reach the value log was not durably precommitted
+		valuesAvailable, err := precommittedValuesAvailable(tx, vLogs)
+		if err != nil {
+			txPool.Release(tx)
+			return nil, fmt.Errorf("%v: while loading pre-committed transaction: %v", err, precommittedTxID+1)
+		}
+		if !valuesAvailable {
+			opts.logger.Infof("values are missing: discarding pre-committed transaction: %d", precommittedTxID+1)
+			break
+		}
+
 		precommittedTxID++
 		precommittedAlh = tx.header.Alh()
 
@@ -1485,6 +1497,36 @@ func (s *ImmuStore) releaseAllocTx(tx *Tx) {
 
 func encodeOffset(offset int64, vLogID byte) int64 {
 	return int64(vLogID)<<56 | offset
+}
+
+// precommittedValuesAvailable tells whether every value referenced by the entries of tx lies within its value log
+func precommittedValuesAvailable(tx *Tx, vLogs []appendable.Appendable) (bool, error) {
+	for _, e := range tx.Entries() {
+		if e.vLen == 0 {
+			continue
+		}
+
+		vLogID, off := decodeOffset(e.vOff)
+		if vLogID == 0 {
+			// the value is embedded in the tx log (or it was not stored at all: replicated truncated transaction)
+			continue
+		}
+
+		if int(vLogID) > len(vLogs) || off < 0 {
+			return false, nil
+		}
+
+		size, err := vLogs[vLogID-1].Size()
+		if err != nil {
+			return false, err
+		}
+
+		if off+int64(e.vLen) > size {
+			return false, nil
+		}
+	}
+
+	return true, nil
 }
 
 func decodeOffset(offset int64) (byte, int64) {
